@@ -137,7 +137,7 @@ def gen_type(rng, depth, lit_ok=True, hashable=False, allow=None, no_dc=False):
     if k == 'dc':
         return Ty('dc', spec=gen_class(rng, d))
     if k == 'ndarray':
-        return Ty('ndarray', dtype=rng.choice((None, 'int', 'float', 'float')))
+        return Ty('ndarray', dtype=rng.choice((None, 'int', 'float', 'float') if NDARRAY_ANY_LEAVES else ('int', 'float', 'float')))
     if k == 'vol':
         return Ty('vol', [g(no_dc=True)])
     return gen_leaf(rng, hashable, allow)
@@ -250,6 +250,8 @@ def gen_class(rng, depth, *, naming=True, variant_tag=None, allow=None, simple=F
                 f.exclude = True
             if f.dflt == 'val' and r() < 0.05:
                 f.init = False
+                if INIT_FALSE_IMPLIES_EXCLUDE:
+                    f.exclude = True
         fields.append(f)
 
     # legal order: required positional, defaulted positional, keyword-only (defaults required if tuple input)
@@ -279,6 +281,8 @@ def gen_class(rng, depth, *, naming=True, variant_tag=None, allow=None, simple=F
     if not simple and r() < 0.12:
         post_init = rng.choice(('ok', 'ok', 'raise'))
         cands = [f for f in fields if f.ty.k in ('int', 'str') and f.init]
+        if INIT_FALSE_IMPLIES_EXCLUDE:
+            cands = [f for f in cands if not f.exclude]
         if cands and r() < 0.6:
             f = rng.choice(cands)
             post_init = ('raise_if', f.name, 7 if f.ty.k == 'int' else 'abc')
@@ -286,6 +290,12 @@ def gen_class(rng, depth, *, naming=True, variant_tag=None, allow=None, simple=F
     spec.tagval = variant_tag[1] if variant_tag else None
     return spec
 
+
+# set by C05/C06/C19: round-trip workloads only use init=False fields that are also excluded, and validation
+# hooks that do not depend on excluded fields
+INIT_FALSE_IMPLIES_EXCLUDE = False
+# object-dtype arrays holding arbitrary containers are outside what the docs describe; round-trip workloads use typed dtypes
+NDARRAY_ANY_LEAVES = True
 
 TAG_POOLS = (('v1', 'v2', 'v3', 'v4'), (1, 2, 3, 4), ('a', 2, None, True), (10, 'ten', 10.5, b'x'))
 
@@ -315,6 +325,8 @@ def gen_tagged(rng, depth, layout=None, overlap=None):
                              force={'in_format': ('struct',)} if rng.random() < 0.7 else None)
             if 'struct' not in spec.opt('in_format') and layout is False:
                 spec.opts['in_format'] = ('struct', 'tuple')
+            if layout is False and spec.opt('out_format') != 'struct':
+                spec.opts.pop('out_format', None)   # the internal layout lives inside the variant's own mapping
         v = Ty('dc', spec=spec)
         base = base or v
         variants.append(v)
